@@ -7,6 +7,7 @@ import (
 	"math/rand"
 	"net"
 	"os"
+	"sort"
 	"strings"
 	"sync/atomic"
 	"time"
@@ -26,7 +27,7 @@ type c13Pair struct {
 	Alias [3]uint64 `json:"alias"`
 	Name  string    `json:"name"`
 	Keep  bool      `json:"keep"`
-	Comp  compSpec  `json:"comp"` // compression of the sender: its large messages travel as Z frames, the small ones plain
+	Comp  compSpec  `json:"comp"`           // compression of the sender: its large messages travel as Z frames, the small ones plain
 	Huge  bool      `json:"huge,omitempty"` // every second message of the pair is larger than 64 KiB (one frame that does not fit any write buffer)
 }
 
@@ -466,7 +467,16 @@ func monitorC13(c c13Case, o c13Obs) []string {
 			}
 		}
 		if fmt.Sprint(want) != fmt.Sprint(got) {
-			fails = append(fails, fmt.Sprintf("pair %d (%s from %d to %d/%v): sent in order %v, delivered %v", k, pr.Kind, pr.From, pr.To, pr.Alias[1], want, got))
+			// the same messages in another order (FIFO), or something lost / doubled (integrity)
+			kind := "[integrity] "
+			if len(want) == len(got) {
+				sorted := append([]int(nil), got...)
+				sort.Ints(sorted)
+				if fmt.Sprint(sorted) == fmt.Sprint(want) {
+					kind = "[fifo-order] "
+				}
+			}
+			fails = append(fails, kind+fmt.Sprintf("pair %d (%s from %d to %d/%v): sent in order %v, delivered %v", k, pr.Kind, pr.From, pr.To, pr.Alias[1], want, got))
 		}
 	}
 	for _, d := range o.Delivered {
@@ -553,7 +563,11 @@ func runC13(n int, outPath, replay string) {
 		o := runC13Case(c)
 		idx := out.Add(coqC13(c, o), c)
 		for _, f := range monitorC13(c, o) {
-			out.Monitor = append(out.Monitor, util.MonitorFail{Case: idx, What: f})
+			mf := util.MonitorFail{Case: idx, What: f, Tags: []string{"integrity"}}
+			if strings.HasPrefix(f, "[fifo-order] ") {
+				mf.Tags = []string{"fifo-order"}
+			}
+			out.Monitor = append(out.Monitor, mf)
 		}
 		out.Stats[fmt.Sprintf("pool/%d", c.Pool)]++
 		sc := "constant-pool"
